@@ -1,6 +1,7 @@
 package main
 
 import (
+	"bytes"
 	"fmt"
 	"strings"
 
@@ -125,6 +126,27 @@ func c17CheckAlphabet(r *obs.Run, name string, a alphabet.Alphabet, def string, 
 				}
 			}
 			qls[i] = alphabet.QLetter{L: ls[i], Q: alphabet.Qphred(r.Rng.Intn(60))}
+		}
+		if len(def) > 0 && r.Rng.Intn(4) == 0 {
+			// the bytes of one well-formed multi-byte UTF-8 sequence whose code point has a valid letter as its low byte:
+			// letters are bytes, so every one of them is an invalid letter
+			ru := rune(def[r.Rng.Intn(len(def))]) + rune(0x100*(1+r.Rng.Intn(0x30)))
+			if r.Rng.Intn(4) == 0 {
+				ru += 0x10000
+			}
+			enc := []byte(string(ru))
+			at := r.Rng.Intn(len(ls) + 1)
+			var ins []alphabet.Letter
+			var qins []alphabet.QLetter
+			for _, b := range enc {
+				ins = append(ins, alphabet.Letter(b))
+				qins = append(qins, alphabet.QLetter{L: alphabet.Letter(b), Q: 20})
+			}
+			ls = append(ls[:at:at], append(ins, ls[at:]...)...)
+			qls = append(qls[:at:at], append(qins, qls[at:]...)...)
+			r.Count("allvalid_slices_with_utf8_sequences", 1)
+		}
+		for i := range ls {
 			if first < 0 && !member[ls[i]] {
 				first = i
 			}
@@ -428,7 +450,14 @@ func c17Case(r *obs.Run, i int) {
 				b = rng.Intn(len(def))
 			}
 			c[a] = def[b] // a -> b but b -> b
-			if kind == 5 && len(def) >= 3 {
+			if rng.Intn(3) == 0 && len(def) >= 2 {
+				// dangling pairs: the images are not listed as sources at all (now and then with NUL as a source)
+				h := len(def) / 2
+				s, c = append([]byte(nil), def[:h]...), append([]byte(nil), def[h:2*h]...)
+				if rng.Intn(2) == 0 && bytes.IndexByte(c, 0) < 0 && bytes.IndexByte(s, 0) < 0 {
+					s[rng.Intn(h)] = 0
+				}
+			} else if kind == 5 && len(def) >= 3 {
 				// 3-cycle
 				k := rng.Intn(len(def))
 				for k == a || k == b {
